@@ -1376,3 +1376,146 @@ func ruleSegCall(c *Ctx) {
 	}
 	c.check(okPair, name+":segments:tables", call.Pos(), "sa = Sort(t), lcp = LCP(t, sa) for the same text t", "the suffix array and LCP table passed to suffix.Segments are not computed from the same text")
 }
+
+// ---------------------------------------------------------------- R-OSAP-FASTPATH
+
+func init() {
+	reg(&Rule{ID: "R-OSAP-FASTPATH", Min: 2,
+		Doc: "OSAP's literal-only shortcut (a block emitted without running the DP) is guarded by a counter == 0 that is written only by the functions that (re)build or drop the edge table, and grows there with every edge appended: a counter changed elsewhere goes stale and the shortcut drops matches that exist",
+		Run: ruleOsapFastPath})
+}
+
+func ruleOsapFastPath(c *Ctx) {
+	o := c.osap()
+	if o.err != "" || o.p == nil || o.p.Parse == nil {
+		c.fail("osap", token.NoPos, "OSAP parser not recognised")
+		return
+	}
+	parse := o.p.Parse
+	fi := c.info(parse)
+	bp := blockParam(parse)
+	edgesName, _ := c.osapFieldNames()
+	// shortcut blocks: a literal append to blk.Literals in a block that is not an emission block and returns
+	// success without passing the DP call; its guard: field == 0
+	type shortcut struct {
+		b *ssa.BasicBlock
+		f *types.Var
+	}
+	var cuts []shortcut
+	for _, b := range parse.Blocks {
+		if _, ok := b.Instrs[len(b.Instrs)-1].(*ssa.Return); !ok {
+			continue
+		}
+		hasApp := false
+		for _, in := range b.Instrs {
+			if st, ok := in.(*ssa.Store); ok {
+				if fa, ok := st.Addr.(*ssa.FieldAddr); ok && fa.X == ssa.Value(bp) {
+					if isBuiltinCall(valueInstr(st.Val), "append") != nil {
+						hasApp = true
+					}
+				}
+			}
+		}
+		if !hasApp {
+			continue
+		}
+		isEmit := false
+		for _, e := range c.emitsIn(parse) {
+			if e.Block == b || e.Block.Dominates(b) {
+				isEmit = true
+			}
+		}
+		if isEmit {
+			continue
+		}
+		var guard *types.Var
+		for _, cd := range fi.condsAt(b) {
+			cd = unNot(cd)
+			bo, ok := cd.V.(*ssa.BinOp)
+			if !ok || bo.Op != token.EQL || !cd.True {
+				continue
+			}
+			for _, pr := range [][2]ssa.Value{{bo.X, bo.Y}, {bo.Y, bo.X}} {
+				if isConstZero(pr[1]) {
+					if f := loadedField(pr[0]); f != nil && isIntType(f.Type()) {
+						if _, _, ok := recvPathOf(parse, pr[0]); ok {
+							guard = f
+						}
+					}
+				}
+			}
+		}
+		if guard != nil {
+			cuts = append(cuts, shortcut{b, guard})
+		}
+	}
+	if len(cuts) == 0 {
+		c.ok("lz.(*"+o.p.Name+").Parse:no-shortcut", parse.Pos(), "no literal-only shortcut: every block goes through the DP")
+		c.ok("lz.(*"+o.p.Name+").Parse:no-shortcut:writers", parse.Pos(), "nothing to check")
+		return
+	}
+	for i, cut := range cuts {
+		key := fmt.Sprintf("lz.(*%s).Parse:shortcut#%d", o.p.Name, i+1)
+		// writers of the guard field: functions with a direct store; each must also (re)assign the edge table
+		var bad []string
+		nW, grows := 0, false
+		for _, fn := range c.allFuncs {
+			if fn.Pkg != c.lz || fn.Blocks == nil {
+				continue
+			}
+			writesGuard, writesEdges := false, false
+			for _, b := range fn.Blocks {
+				for _, in := range b.Instrs {
+					st, ok := in.(*ssa.Store)
+					if !ok {
+						continue
+					}
+					f := fieldOfAddr(st.Addr)
+					if f == cut.f {
+						writesGuard = true
+						if bo, ok := st.Val.(*ssa.BinOp); ok && bo.Op == token.ADD {
+							grows = true
+						}
+					}
+					if f != nil && f.Name() == edgesName {
+						writesEdges = true
+					}
+					// storing into a slot of the edge table counts as building it
+					if ia, ok := st.Addr.(*ssa.IndexAddr); ok {
+						if ef := loadedField(ia.X); ef != nil && ef.Name() == edgesName {
+							writesEdges = true
+						}
+					}
+				}
+			}
+			// closures of a builder belong to it
+			if writesGuard {
+				nW++
+				root := fn
+				for root.Parent() != nil {
+					root = root.Parent()
+				}
+				if !writesEdges && root != fn {
+					for _, b := range root.Blocks {
+						for _, in := range b.Instrs {
+							if st, ok := in.(*ssa.Store); ok {
+								if f := fieldOfAddr(st.Addr); f != nil && f.Name() == edgesName {
+									writesEdges = true
+								}
+							}
+						}
+					}
+				}
+				// a store of a whole zero/new receiver value (init, Reset through *s = T{…}) is no field store here
+				if !writesEdges {
+					bad = append(bad, fnName(fn))
+				}
+			}
+		}
+		sort.Strings(bad)
+		c.check(len(bad) == 0 && nW > 0, key+":writers", cut.b.Instrs[0].Pos(),
+			fmt.Sprintf("the shortcut's counter %s is written only where the edge table is built or dropped (%d functions)", cut.f.Name(), nW),
+			fmt.Sprintf("the counter %s that guards the literal-only shortcut is written by %v, which do not build the edge table: it no longer counts the edges of the table and the shortcut can drop matches that exist", cut.f.Name(), bad))
+		c.check(grows, key+":counts", cut.b.Instrs[0].Pos(), "the counter is incremented where edges are stored", "the counter guarding the literal-only shortcut is never incremented: the shortcut would always be taken")
+	}
+}
